@@ -40,22 +40,30 @@ func curveWeight(name string) int {
 	return 1
 }
 
-// alwaysKeep marks classes that every quick run executes (the ones named in the
-// property statement), whatever the seed.
+// alwaysKeep marks the sentinel classes: every run of either tier executes them
+// on every curve of the tier, in both modes, whatever the seed (outside the
+// quotas).  They contain the classes named in the property statement and one
+// witness for every failure class known on the unchanged tree, so that the set
+// of violation signatures does not depend on what the seeded sampling picks.
 func alwaysKeep(c *emuCase) bool {
 	switch c.Op {
 	case "ECMul":
-		return c.Class == "s=0,P=R1" || c.Class == "s=r-1,P=R1" || c.Class == "s=1,P=G" || c.Class == "s=0,P=inf" || c.Class == "s=random,P=inf" || c.Class == "s=r-2,P=R1"
+		for _, s := range []string{"s=0,P=R1", "s=r-1,P=R1", "s=1,P=G", "s=1,P=R1", "s=0,P=inf", "s=random,P=inf", "s=r-2,P=R1", "s=r,P=R1", "s=r+1,P=R1",
+			"s=0,P=8G(table-point)", "s=1,P=8G(table-point)", "s=glv:+1*1+1*lambda,P=G", "s=glv:+1*lambda-1*lambda^2,P=R1"} {
+			if c.Class == s {
+				return true
+			}
+		}
 	case "ECAdd":
 		return c.Class == "inf+inf" || c.Class == "G+G" || c.Class == "G+-G"
 	case "ScalarMul":
-		for _, s := range []string{"s=3,P=R1", "s=r-3,P=R1", "s=0,P=8G(table-point)", "s=1,P=8G(table-point)", "s=glv:+1*1+1*lambda,P=G", "s=0,P=R1", "s=1,P=R1", "s=r-1,P=R1", "s=r,P=R1", "s=r+1,P=R1", "s=cap,P=R1", "s=random,P=inf", "s=0,P=inf", "s=glv:+1*lambda,P=G", "s=glv:+1*lambda^2,P=G", "s=1,P=G", "s=2,P=G"} {
+		for _, s := range []string{"s=3,P=R1", "s=r-3,P=R1", "s=0,P=8G(table-point)", "s=1,P=8G(table-point)", "s=glv:+1*1+1*lambda,P=G", "s=glv:+1*lambda-1*lambda^2,P=R1", "s=0,P=R1", "s=1,P=R1", "s=r-1,P=R1", "s=r,P=R1", "s=r+1,P=R1", "s=cap,P=R1", "s=random,P=inf", "s=0,P=inf", "s=glv:+1*lambda,P=G", "s=glv:+1*lambda^2,P=G", "s=1,P=G", "s=2,P=G"} {
 			if c.Class == s {
 				return true
 			}
 		}
 	case "ScalarMulBase":
-		return c.Class == "s=0" || c.Class == "s=1" || c.Class == "s=r-1" || c.Class == "s=r+1" || c.Class == "s=3" || c.Class == "s=r"
+		return c.Class == "s=0" || c.Class == "s=1" || c.Class == "s=r-1" || c.Class == "s=r+1" || c.Class == "s=3" || c.Class == "s=r" || c.Class == "s=glv:+1*1+1*lambda"
 	case "AddUnified":
 		return c.Class == "inf+inf" || c.Class == "G+G" || c.Class == "G+-G" || c.Class == "inf+R1" || c.Class == "R1+inf" || c.Class == "R1+R2"
 	case "JointScalarMulBase":
@@ -124,7 +132,7 @@ func planEmu(r *vcore.Run) *emuPlan {
 func (pl *emuPlan) hintInputs(c *emuCase) []hintProbe {
 	d := pl.descs[c.Curve]
 	r := d.c.R
-	nl := d.capBit / 64
+	nl := d.nbLimbs
 	var out []hintProbe
 	mk := func(h string, nout int, class string, in ...*big.Int) {
 		out = append(out, hintProbe{Hint: h, Curve: c.Curve, Class: class, Mod: c.Native, Emulated: true, EmuMod: r, NbLimbs: nl, Inputs: in, NbOut: nout})
@@ -231,41 +239,19 @@ func sampleEmu(rng *rand.Rand, cases []*emuCase, quota map[string]int) []*emuCas
 		n := quota[op]
 		var keep, rest []*emuCase
 		for _, c := range list {
-			if alwaysKeep(c) && (c.Complete || !hasBothModes(op) || rootClass(c)) {
+			if alwaysKeep(c) {
 				keep = append(keep, c)
 			} else {
 				rest = append(rest, c)
 			}
 		}
 		rng.Shuffle(len(rest), func(i, j int) { rest[i], rest[j] = rest[j], rest[i] })
-		if len(keep) > n {
-			keep = keep[:n]
-		}
+		// the sentinels are outside the quota; the quota is filled with a seeded
+		// choice among the remaining classes
 		out = append(out, keep...)
-		for i := 0; i < len(rest) && len(keep)+i < n; i++ {
+		for i := 0; i < len(rest) && i < n; i++ {
 			out = append(out, rest[i])
 		}
 	}
 	return out
-}
-
-func hasBothModes(op string) bool {
-	switch op {
-	case "AddUnified", "Add", "Neg", "AssertIsOnCurve", "ECAdd":
-		return false
-	}
-	return true
-}
-
-// rootClass marks the single-scalar-multiplication classes that are executed in
-// both modes in every run: they are the possible roots of composite failures
-// (JointScalarMulBase / MultiScalarMul are folded into them).
-func rootClass(c *emuCase) bool {
-	switch c.Op {
-	case "ScalarMul":
-		return c.Class == "s=1,P=R1" || c.Class == "s=r-1,P=R1" || c.Class == "s=3,P=R1" || c.Class == "s=r-3,P=R1" || c.Class == "s=r+1,P=R1"
-	case "ScalarMulBase":
-		return c.Class == "s=1" || c.Class == "s=r-1" || c.Class == "s=3"
-	}
-	return false
 }
